@@ -57,3 +57,25 @@ Theorem C02_reused_label_is_open :
                           In (TRing l) rest /\ find_open l (p_open st) <> None.
 Proof. exact splice_check_reused. Qed.
 Print Assumptions C02_reused_label_is_open.
+
+(* ... and, with Proofs/Suffix.v, the whole substitution: where the check says SpFresh and host and child are
+   readable molecules, the string with the child in the marker's place reads as the host's molecule with the marker
+   atom replaced by the child's molecule -- no ring of the host is closed by the child, none of the child by the host *)
+From GV Require Import Proofs.Suffix.
+Theorem C02_fresh_splice_is_substitution :
+  forall sym me child Mh Mk,
+  splice_check sym me child = SpFresh -> sem_str me = Some Mh -> sem_str child = Some Mk ->
+  exists pre am post a0 rest st c sk Me N1 N2 A2 B2,
+    lexS me = Some (pre ++ TAtom am :: post) /\ str_eqb (a_sym am) sym = true /\
+    lexS child = Some (TAtom a0 :: rest) /\
+    run pst0 pre = Some st /\ p_cur st = Some c /\
+    run pst0 (TAtom a0 :: rest) = Some sk /\
+    sem (pre ++ (TAtom a0 :: rest) ++ post) = Some Me /\
+    m_atoms Mh = p_atoms st ++ am :: A2 /\
+    m_atoms Me = p_atoms st ++ m_atoms Mk ++ A2 /\
+    m_nbrs Mh = N1 ++ (Some c :: repeat None (a_h am)) :: N2 /\ length N1 = length (p_atoms st) /\
+    m_nbrs Me = map (map (option_map (ren st sk))) N1 ++ graft_nbrs st c (m_nbrs Mk) ++ map (map (option_map (ren st sk))) N2 /\
+    m_bonds Mh = p_bonds st ++ (c, length (p_atoms st), default_bond (nth c (p_atoms st) am) am) :: B2 /\
+    m_bonds Me = p_bonds st ++ (c, length (p_atoms st), link_bond st c a0) :: map (sh_bond st) (m_bonds Mk) ++ map (ren_bond st sk) B2.
+Proof. exact splice_check_sem. Qed.
+Print Assumptions C02_fresh_splice_is_substitution.
